@@ -64,6 +64,8 @@ def run_case(case):
     wd = cli.scratch("c05")
     n, steps, P, fam = case["n"], case["steps"], case["P"], case["family"]
     o = dict(GridSize=n, StepsPerTs=steps, InitialDistZoom=1.0, InterpolationPoints=case["it"], derivation=case["deriv"], **FAM[fam])
+    if case.get("clamped"):
+        o["InterpolateClamped"] = True      # documented option; must not change the CPU result (round-9 seed C05i)
     if case.get("shiftx") or case.get("shifty"):
         o["PhaseSpaceShiftX"], o["PhaseSpaceShiftY"] = case.get("shiftx", 0.0), case.get("shifty", 0.0)
     d = cfggen.derive(o)
@@ -198,7 +200,7 @@ def cases(draw, fast=True):
         zooms = [0.5, 2.0]
     return dict(n=n, steps=steps, P=P, family=fam,
                 D=float(10 ** draw(st.floats(np.log10(dlo), np.log10(max(dmax, dlo * 1.2))))), zoom=draw(st.sampled_from(zooms)),
-                it=it, deriv=draw(st.sampled_from([3, 4])),
+                it=it, deriv=draw(st.sampled_from([3, 4])), clamped=draw(st.integers(0, 2)) == 0,
                 zr=float(10 ** draw(st.floats(1, 3))), zl=float(draw(st.floats(-1, 1))),
                 ratio=(draw(st.sampled_from([0.2, 0.3, 0.5])) if two else 0.0),
                 first_strong=draw(st.booleans()), sps=draw(st.floats(1.1, 1.8)),
